@@ -51,6 +51,9 @@ pub fn line_kinds() -> Vec<(&'static [u8], &'static str)> {
         (b"---", "rule"),
         (b"a (no-eol)", "ends-like-modifier"),
         (b"x\r", "carriage-return"),
+        // fence look-alikes that are not pure backtick runs
+        (b"```json", "fence-with-info"),
+        (b"```sh `date`", "fence-with-inline-code"),
     ]
 }
 
